@@ -443,7 +443,7 @@ func TestC12(t *testing.T) {
 	pbt.Main(t, pbt.Prop[Case]{
 		ID: "C12", Name: "size",
 		Rule: "rapid-generated M3 reporter configurations (Compact/Binary, 0..8 common tags, queue size 1..4096, MaxPacketSizeBytes = the smallest size at which the largest single metric still fits on its own (computed with the real encoder at worst-case values and sequence id) plus slack 0..300, or the 1440 default, or up to 65000; reporter pre-aged by 0/130/17000 batches so that the sequence id varint grows) and metric streams: 'mixed' (1..5 metrics of all kinds, names 1..600 bytes, 0..8 tags, extreme values, histogram buckets, flushes at random positions, repeats) or 'burst' (one template repeated until at least three packets are full). Real loopback UDP sink. Deciding oracle: every datagram <= MaxPacketSizeBytes and decodes as one message; concatenation of decoded (non-internal) metrics over datagrams == the reported sequence. Diagnostic only: charged vs encoded size per metric via the verif observation hooks. Non-trivial: >=2 datagrams and one within 64 bytes of the limit. Distinct: FNV-64 of the case JSON.",
-		Gen:  gen, Run: run,
+		Gen:  gen, Run: run, HangAfter: 300 * time.Second,
 	})
 }
 
@@ -644,6 +644,6 @@ func TestOutage(t *testing.T) {
 	pbt.Main(t, pbt.Prop[OutCase]{
 		ID: "C12", Name: "outage",
 		Rule: "fault sequences: an M3 reporter (Compact/Binary, MaxPacketSizeBytes = minimum feasible + slack, or 1440) sends bursts of 1..120 uniquely valued counters or histogram-bucket metrics; the loopback destination is closed for 1..4 bursts (sends fail with ECONNREFUSED; with or without explicit flushes, so packets are also cut by size alone during the outage) and then re-opened on the same port for 1..3 more bursts. Oracle: EVERY datagram that arrives, before or after the outage, is <= MaxPacketSizeBytes and decodes as one message; values arrive in strictly increasing order (nothing duplicated or reordered across a packet boundary or across a failed send); everything reported while the destination was up the first time arrives exactly once. Non-trivial: >=2 datagrams and one within 64 bytes of the limit.",
-		Gen:  genOut, Run: runOut,
+		Gen:  genOut, Run: runOut, HangAfter: 300 * time.Second,
 	})
 }
